@@ -51,6 +51,12 @@
    UTF-8 are in the universe, ser = "smtputf8"); group syntax in address lists; a known MIME type
    declared for arbitrary bytes (payload "bin" is always of unknown type); file name and MIME type
    that contradict the payload.
+   UNITS / FULL TEXT (the e-mail clause of C03, decided here because only this module has an e-mail
+   writer): a message has exactly one unit, of body type "plain" when there is a plain body, else
+   "html" (README: "Returns body_plain when present, else body_html"; an HTML body is returned as
+   the HTML source -- documented, so markup in the text of an HTML-only mail is NOT a violation);
+   get_full_text() is that body (DC3, DC4 apply) and obeys the JOIN LAW
+       get_full_text() = trimmed newline-join of the unit texts          (observation field joinok).
    No DON'T-CARE exists for: words and their order in the subject, addresses, display names,
    list lengths and order, message ids, body selection, attachment order / type / bytes.
 
@@ -110,6 +116,9 @@ ExpId(tag, v) == IF v = "none" THEN Absent ELSE <<tag, "id", 0>>
 PfN(m) == IF m.body.pf THEN 1 ELSE 0
 ExpPlain(m) == IF HasPlain(m.body.s) THEN <<"plain", m.body.pc, PfN(m)>> ELSE Absent
 ExpHtml(m)  == IF HasHtml(m.body.s)  THEN <<"html", m.body.hc, 0>> ELSE Absent
+\* units / full text (every structure of the universe has a plain or an HTML body)
+ExpUnitType(m) == IF HasPlain(m.body.s) THEN "plain" ELSE "html"
+ExpFull(m)     == IF HasPlain(m.body.s) THEN ExpPlain(m) ELSE ExpHtml(m)
 
 KnownN(a) == IF a.known THEN 1 ELSE 0
 ExpAtt(a, j) == [ name  |-> IF a.fn = "none" THEN Absent ELSE <<"fn", a.fn, j>>,
@@ -124,7 +133,8 @@ Expected(m) ==
       to |-> Mailboxes("to", m.to), cc |-> Mailboxes("cc", m.cc),
       bcc |-> Mailboxes("bcc", m.bcc), rt |-> Mailboxes("rt", m.rt),
       date |-> ExpDate(m), mid |-> ExpId("mid", m.mid), irt |-> ExpId("irt", m.irt),
-      plain |-> ExpPlain(m), html |-> ExpHtml(m), atts |-> ExpAtts(m) ]
+      plain |-> ExpPlain(m), html |-> ExpHtml(m), atts |-> ExpAtts(m),
+      nunits |-> 1, utype |-> ExpUnitType(m), full |-> ExpFull(m), joinok |-> TRUE ]
 
 (* ---------------- acceptance = Expected modulo the DON'T-CAREs ---------------- *)
 NotInline(x) == x.bytes[1] # "inline"
@@ -162,6 +172,10 @@ Accept(path, m, o) ==
         /\ o.date = e.date /\ o.mid = e.mid /\ o.irt = e.irt
         /\ AcceptPlain(path, m, o.plain)
         /\ o.html = e.html
+        \* C03 clause for e-mail: one unit of the right body type; full text = that body = join of units
+        /\ o.joinok
+        /\ o.nunits = 1 /\ o.utype = e.utype
+        /\ IF HasPlain(m.body.s) THEN AcceptPlain(path, m, o.full) ELSE o.full = e.full
         /\ (~HasInline(m.body.s) => Len(oa) = Len(o.atts))      \* "inline" only where there is one
         /\ Len(oa) = Len(e.atts)
         /\ \A j \in DOMAIN e.atts : AcceptAtt(path, Atts(m)[j], e.atts[j], oa[j])
@@ -170,7 +184,7 @@ Accept(path, m, o) ==
 InDomain_KF_C16_01_Msg(path, m) == \E j \in DOMAIN Atts(m) : InDomain_KF_C16_01(path, Atts(m)[j])
 
 (* ---------------- field presence (fixtures that have no abstract message: .msg) ------------- *)
-\* p = [subj, fromaddr, date, mid, body, natt, expnatt, attok, twin] projected from a fixture extraction
+\* p = [subj, fromaddr, date, mid, body, natt, expnatt, attok, joinok, twin] projected from a fixture extraction
 Presence(p) ==
     /\ p.subj /\ p.fromaddr           \* a subject and a sender address/name were extracted
     /\ p.date /\ p.mid                \* date parses as ISO 8601 with offset, id has the <...> form
@@ -178,6 +192,7 @@ Presence(p) ==
     /\ p.natt = p.expnatt             \* as many attachments as the fixture is known to hold
     /\ p.attok                        \* each with a name, a type, non-empty bytes, stream at 0;
                                       \* every supported one extracts to non-empty text
+    /\ p.joinok                       \* join law: get_full_text() = trimmed newline-join of unit texts
     /\ p.twin                         \* .msg fixture with an .eml twin: same attachment names,
                                       \* types and bytes from both extractors
 
